@@ -76,6 +76,8 @@ func compileClass(text string) string {
 		return "module-not-found"
 	case strings.Contains(text, "cyclic module import"):
 		return "cyclic-import"
+	case strings.Contains(text, "cannot assign to builtin"):
+		return "assign-builtin"
 	}
 	return "other:" + text
 }
@@ -211,7 +213,7 @@ func classify(p *lang.Program, o *ref.Outcome, feat map[string]int) (nontrivial 
 		classes = append(classes, "has-modules")
 	}
 	for k := range feat {
-		if strings.HasPrefix(k, "builtin:") || strings.HasPrefix(k, "for-in-") || strings.Contains(k, "module") || strings.HasPrefix(k, "tpl:") {
+		if strings.HasPrefix(k, "builtin:") || strings.HasPrefix(k, "for-in-") || strings.Contains(k, "module") || strings.HasPrefix(k, "tpl:") || strings.HasPrefix(k, "ill-scoped:") {
 			classes = append(classes, "gen:"+k)
 		}
 	}
@@ -259,6 +261,11 @@ func TestRefDifferential(t *testing.T) {
 			o.HostMods = []string{bridge.HostModName}
 		}
 		p, feat := gen.Program(t, o, inputs)
+		if rapid.IntRange(0, 11).Draw(t, "illScoped") == 0 {
+			if k := gen.InjectScopeError(t, p); k != "" {
+				feat["ill-scoped:"+k] = 1
+			}
+		}
 		check(t, "TestRefDifferential", p, inputs, feat, hostMod)
 	})
 }
